@@ -317,7 +317,8 @@ Lemma iter_decomp s evs r :
 Proof.
   intros Hinv. unfold serve_iter.
   destruct (first_byte cfg s) as [b0 cs0 fbr| |] eqn:Hfb.
-  - assert (Hfbr : fbr = true -> reduce_mem cfg = true \/ l_fbr s = true).
+  - destruct (gone_at_start E (l_num s + 1)%N); [intros H; injection H as <- <-; left; auto|].
+    assert (Hfbr : fbr = true -> reduce_mem cfg = true \/ l_fbr s = true).
     { revert Hfb. unfold first_byte. cbv zeta. destruct (negb (reduce_mem cfg) || l_br s) eqn:Hc.
       - destruct (peek1 (buf (l_rd s)) (chunks (l_rd s))) as [[b cs]|].
         + intros H; injection H as <- <- <-. auto.
@@ -981,7 +982,8 @@ Proof.
     destruct (serve_iter F cfg E s) as [e1 r] eqn:Hit.
     assert (Hc1 : ~ In Close e1).
     { clear IH. unfold serve_iter in Hit. destruct (first_byte cfg s).
-      - injection Hit as <- _. unfold serve_req. cbv zeta. cbn [fst]. intros Hin.
+      - destruct (gone_at_start E (l_num s + 1)%N); [injection Hit as <- _; destruct (l_dirty s); cbn; intuition discriminate|].
+        injection Hit as <- _. unfold serve_req. cbv zeta. cbn [fst]. intros Hin.
         destruct Hin as [Hin|[Hin|Hin]]; try discriminate.
         apply in_app_or in Hin as [Hin|Hin].
         { destruct (l_dirty s && _); cbn in Hin; intuition discriminate. }
@@ -1099,7 +1101,7 @@ Qed.
 
 Definition toy_env (ops : list hop) : env :=
   {| handler := fun _ _ => ops; expect_status := fun _ _ => 100%Z; continue_ok := fun _ _ => true;
-     stop_at_close := fun _ => false; stop_at_idle := fun _ => false |}.
+     stop_at_close := fun _ => false; stop_at_idle := fun _ => false; gone_at_start := fun _ => false |}.
 
 (* regression witness: KeepHijackedConns + ReduceMemoryUsage + bytes buffered behind the hijacking request.
    The reader handed over goes through ctx.fbr; if hijackConnHandler reset the ctx (as it did before the
